@@ -111,6 +111,16 @@ class ProvNP:
 def provider_verdicts(kw):
     def g(x: Annotated[np.ndarray, dltype.FloatTensor["a k"]], y: Annotated[np.ndarray, dltype.FloatTensor["a*k"]] | None = None): return 1
     return verdicts_of(dltype.dltyped(ProvNP(), **kw)(g), [(Z(2,3),), (Z(2,3), Z(6)), (Z(3,3),), (Z(2,3), Z(5)), (Z(2,4),)])
+def first_checks(kw):
+    # annotation objects made HERE, so that each of these calls is the FIRST check an annotation object ever performs: a multi-axis group
+    # (`*batch`, `...`) met for the first time by an array whose rank is not the number of written entries, then by other ranks
+    out = []
+    for shape, ranks in (("*batch c", (3, 1, 2, 4)), ("... c", (1, 3, 2)), ("a *mid b", (4, 2, 3)), ("2 ...", (3, 1)), ("*batch", (0, 2))):
+        ann = dltype.FloatTensor[shape]
+        def g(x: Annotated[np.ndarray, ann]): return 1
+        d = dltype.dltyped(**kw)(g)
+        out += verdicts_of(d, [(Z(*([2] * r)),) for r in ranks])
+    return out
 def decorations(kind, dec, kw):
     out = []
     for obj, extra in odd()[kind]:
@@ -129,7 +139,7 @@ for kind, dec, idx in (("dltyped", dltype.dltyped, 0), ("dltyped_namedtuple", dl
         d = dec(**kw)(obj)
         # a dataclass is patched in place: "the class itself, untouched" = same object and same __init__
         res[f"{kind}/{en}"] = {"identity": (d is obj) and (kind != "dltyped_dataclass" or getattr(d, "__init__", None) is init0), "verdicts": verdicts(d),
-                               "odd": decorations(kind, dec, kw), "prov": provider_verdicts(kw) if kind == "dltyped" else []}
+                               "odd": decorations(kind, dec, kw), "prov": (provider_verdicts(kw) + first_checks(kw)) if kind == "dltyped" else []}
 print(json.dumps(res))
 '''
 
@@ -191,7 +201,7 @@ def custom(run, tier):
                 want_prov = base[f"{kind}/True"]["prov"] if enabled else ["ok"] * len(got["prov"])
                 if got["prov"] != want_prov:
                     i = next(i for i, (a, b) in enumerate(zip(got["prov"], want_prov)) if a != b)
-                    run.findings.append(Finding("failing-input", f"{kind}(enabled={en}) under DISABLE={dis} DEBUG_MODE={dbg} logging={lvl}: with a scope provider whose sizes are numpy integers, call {i} gives {got['prov'][i]!r}, baseline {want_prov[i]!r}", c, got["prov"][i]))
+                    run.findings.append(Finding("failing-input", f"{kind}(enabled={en}) under DISABLE={dis} DEBUG_MODE={dbg} logging={lvl}: with a scope provider whose sizes are numpy integers (calls 0-4) / first checks of fresh multi-axis annotations (calls 5-), call {i} gives {got['prov'][i]!r}, baseline {want_prov[i]!r}", c, got["prov"][i]))
                 want = base_verdicts if enabled else ["ok"] * len(base_verdicts)
                 # constructions of disabled classes / calls of disabled functions never check; enabled ones give the baseline's verdicts and reports
                 if kind == "dltyped":
